@@ -1,3 +1,3 @@
 From Coq Require Import ZArith List Extraction ExtrOcamlBasic.
 From SV Require Import Leb128C.
-Extraction "ex_c02l.ml" c_uleb_size c_uleb_encode c_dec_leb128.
+Extraction "ex_c02l.ml" c_uleb_size c_uleb_encode c_dec_leb128 c_finish_obu.
